@@ -232,7 +232,7 @@ class ConditionLambdaInspection:
         self.text = text
 
 
-_DECORATOR_RE = re.compile(r"^\s*@[a-zA-Z_]")
+_DECORATOR_RE = re.compile(r"^\s*@\s*(\(|[^\W\d])")
 _DEF_CLASS_RE = re.compile(r"^\s*(async\s+def|def |class )")
 
 
